@@ -58,6 +58,9 @@ type Pair struct {
 	// CloseYields0 makes Close of end 0 yield the processor that many times before
 	// it has any effect (no virtual time passes: usable when locks are contended).
 	CloseYields0 int
+	// WriteYields0 makes every Write of end 0 yield the processor that many times
+	// before it takes effect: two writes that should have been one are pulled apart.
+	WriteYields0 int
 
 	// Tap0, if set, observes every successful Write of end 0 (corebgp's side)
 	// at the moment the transport accepts it, under the pair lock: this is
@@ -179,6 +182,9 @@ func (c *Conn) Write(b []byte) (int, error) {
 	p := c.p
 	me, peer := c.i, 1-c.i
 	if me == 0 {
+		for k := 0; k < p.WriteYields0; k++ {
+			runtime.Gosched()
+		}
 		p.mu.Lock()
 		wd := p.WriteDelay0
 		p.mu.Unlock()
